@@ -129,14 +129,65 @@ unsafe extern "C" fn sink_destroy(data: *const c_void) {
     drop(Box::from_raw(data as *mut CbData));
 }
 
+// Handle cookies (see slots.rs): a foreign side that keeps its closures in a table hands Rust an index as `data`, and
+// the first index is 0 (a null `data`). Switched on by the trace-level op `cookies handle`; handles are never reused
+// within a run, so a second destructor call or a call after release is seen exactly.
+struct HandleEntry {
+    ptr: *mut CbData,
+    id: u32,
+    released: bool,
+}
+thread_local! {
+    static HANDLES: std::cell::RefCell<Vec<HandleEntry>> = const { std::cell::RefCell::new(Vec::new()) };
+    static HANDLE_MODE: std::cell::Cell<bool> = const { std::cell::Cell::new(false) };
+}
+unsafe extern "C" fn cb_run_h(data: *mut c_void, arg: u32) -> u32 {
+    let idx = data as usize;
+    let (ptr, id, released) = HANDLES.with(|h| h.borrow().get(idx).map(|e| (e.ptr, e.id, e.released))).unwrap_or((std::ptr::null_mut(), 0, true));
+    if released {
+        ledger::note_bad(format!("callback #{} (handle {}) was called after its destructor ran or with a handle never handed out", id, idx));
+        return arg;
+    }
+    cb_run(ptr as *mut c_void, arg)
+}
+unsafe extern "C" fn cb_destroy_h(data: *mut c_void) {
+    let idx = data as usize;
+    let e = HANDLES.with(|h| {
+        let mut h = h.borrow_mut();
+        h.get_mut(idx).map(|e| {
+            let was = e.released;
+            e.released = true;
+            (e.ptr, e.id, was)
+        })
+    });
+    match e {
+        Some((ptr, _, false)) => cb_destroy(ptr as *mut c_void),
+        Some((_, id, true)) => {
+            ledger::on_drop(id);
+        }
+        None => ledger::note_bad(format!("callback destructor called with handle {} that was never handed out", idx)),
+    }
+}
+
 fn make_cb(dtor: bool) -> (DiplomatCallback<u32>, *mut CbData, u32) {
     let tok = Token::new();
     let id = tok.id;
     let data = Box::into_raw(Box::new(CbData { tok, calls: 0 }));
     type Variadic = unsafe extern "C" fn(*mut c_void, ...) -> u32;
     type Concrete = unsafe extern "C" fn(*mut c_void, u32) -> u32;
-    let run: Variadic = unsafe { std::mem::transmute::<Concrete, Variadic>(cb_run) };
-    (DiplomatCallback { data: data as *mut c_void, run_callback: run, destructor: if dtor { Some(cb_destroy) } else { None } }, data, id)
+    let handle = HANDLE_MODE.with(|m| m.get());
+    let cookie = if handle {
+        HANDLES.with(|h| {
+            let mut h = h.borrow_mut();
+            h.push(HandleEntry { ptr: data, id, released: false });
+            (h.len() - 1) as *mut c_void
+        })
+    } else {
+        data as *mut c_void
+    };
+    let run: Variadic = unsafe { std::mem::transmute::<Concrete, Variadic>(if handle { cb_run_h } else { cb_run }) };
+    let destroy: unsafe extern "C" fn(*mut c_void) = if handle { cb_destroy_h } else { cb_destroy };
+    (DiplomatCallback { data: cookie, run_callback: run, destructor: if dtor { Some(destroy) } else { None } }, data, id)
 }
 
 // ---- caller-supplied writer for the describe methods ------------------------------------------
@@ -262,6 +313,8 @@ pub enum Op {
     DescribeN { h: usize, n: u32, cap: usize, fail_at: Option<u32> },
     TryDescribe { h: usize, d: usize, ok: bool, cap: usize },
     Destroy { h: usize },
+    /// from here on callbacks carry handle cookies (table indices, the first one 0) / pointers again
+    Cookies { handle: bool },
 }
 
 fn b(x: bool, t: &'static str, f: &'static str) -> &'static str {
@@ -321,6 +374,7 @@ pub fn op_text(op: &Op) -> String {
         },
         TryDescribe { h, d, ok, cap } => format!("try_describe {} {} {} {}", h, d, b(*ok, "ok", "err"), cap),
         Destroy { h } => format!("destroy {}", h),
+        Cookies { handle } => format!("cookies {}", b(*handle, "handle", "pointer")),
     }
 }
 
@@ -373,6 +427,7 @@ fn parse_op(t: &[&str]) -> Result<Op, String> {
         "describe_n" => DescribeN { h: hs(1)?, n: num(2)? as u32, cap: num(3)?, fail_at: if flag(4, "fail_at") { Some(num(5)? as u32) } else { None } },
         "try_describe" => TryDescribe { h: hs(1)?, d: hs(2)?, ok: flag(3, "ok"), cap: num(4)? },
         "destroy" => Destroy { h: hs(1)? },
+        "cookies" => Cookies { handle: flag(1, "handle") },
         other => return Err(format!("unknown op {}", other)),
     })
 }
@@ -1078,6 +1133,12 @@ impl<'t> Exec<'t> {
                 }
                 self.check_write("try_describe", &content, format!("try#{}", id).as_bytes(), flushes, failed, false, len_at_flush)?;
             }
+            Cookies { handle } => {
+                HANDLE_MODE.with(|m| m.set(*handle));
+                if *handle {
+                    self.ctr.inc("fault_callback_cookie_handle_mode_fired");
+                }
+            }
             Destroy { h } => {
                 let (kind, ptr, held) = match &self.hs[*h] {
                     Some(x) => (x.kind, x.ptr, x.held),
@@ -1189,11 +1250,14 @@ fn op_kind(op: &Op) -> u32 {
         DescribeN { fail_at, .. } => 51 + fail_at.is_some() as u32,
         TryDescribe { ok, .. } => 53 + *ok as u32,
         Destroy { .. } => 55,
+        Cookies { handle } => 95 + *handle as u32,
     }
 }
 
 pub fn execute(t: &Trace, c12: bool) -> Outcome {
     ledger::reset();
+    HANDLE_MODE.with(|m| m.set(false));
+    HANDLES.with(|h| h.borrow_mut().clear());
     let careful = simcore::faultalloc::careful() && !cfg!(miri);
     if careful {
         simcore::faultalloc::track(true);
@@ -1329,6 +1393,10 @@ pub fn gen_trace(seed: u64, run: u64, c12: bool) -> Trace {
     let mut kinds = vec![K::None; NH];
     let nops = 1 + rng.below(max_ops);
     let mut ops = vec![];
+    // (a property of the run, not a PRNG draw: three runs in eight model a foreign side with handle cookies)
+    if !c12 && (run.wrapping_mul(0x9E37_79B9_7F4A_7C15) >> 61) < 3 {
+        ops.push(Op::Cookies { handle: true });
+    }
     for _ in 0..nops {
         let h = rng.below(nh as u32) as usize;
         let ok = rng.below(16) >= err_rate;
